@@ -8,7 +8,6 @@ import (
 	"sync"
 	"sync/atomic"
 	"testing"
-	"testing/synctest"
 	"time"
 
 	"github.com/ipfs/go-graphsync"
@@ -774,10 +773,11 @@ func newGsMgrFixPlain(c *vf.Case, self peer.ID) *gsMgrFix {
 	return f
 }
 
-// TestC20E2E: two full nodes, several simultaneous transfers in both directions with pauses,
-// resumes and closes from other goroutines, then Stop while transfers are still active.
+// TestC20E2E: two full nodes on the REAL clock (mocknet + real graphsync + real stack), several
+// simultaneous transfers in both directions with pauses, resumes, closes, restarts and disconnects
+// from other goroutines, then Stop while transfers may still be active.
 func TestC20E2E(t *testing.T) {
-	vf.Run(t, "C20E2E", vf.Opts{Bubble: true, DefaultN: 3, WatchdogSec: 150}, func(c *vf.Case) {
+	vf.Run(t, "C20E2E", vf.Opts{Bubble: false, DefaultN: 3, WatchdogSec: 150}, func(c *vf.Case) {
 		r := c.Rng
 		ctx, cancel := context.WithCancel(context.Background())
 		mn := mocknet.New()
@@ -787,14 +787,7 @@ func TestC20E2E(t *testing.T) {
 		}
 		h2, _ := mn.GenPeer()
 		mn.LinkAll()
-		mon := &channelmonitor.Config{AcceptTimeout: time.Minute, RestartDebounce: 200 * time.Millisecond, RestartBackoff: 500 * time.Millisecond, MaxConsecutiveRestarts: 4, CompleteTimeout: time.Minute}
-		stopEarly := r.Intn(2) == 0
-		if stopEarly {
-			// per-channel monitor goroutines of channels that never end survive Manager.Stop (they wait on a
-			// timer/context, not on a lock - DESIGN O2); a bubble must not be left with goroutines parked,
-			// so the monitor is only enabled when every transfer is allowed to end before the stop
-			mon = nil
-		}
+		mon := &channelmonitor.Config{AcceptTimeout: 3 * time.Second, RestartDebounce: 20 * time.Millisecond, RestartBackoff: 50 * time.Millisecond, MaxConsecutiveRestarts: 4, CompleteTimeout: 3 * time.Second}
 		A := newE2ENode(ctx, h1, "A", mon)
 		B := newE2ENode(ctx, h2, "B", mon)
 		n := 4 + r.Intn(7)
@@ -825,78 +818,70 @@ func TestC20E2E(t *testing.T) {
 				xs = append(xs, xfer{chid, ini})
 			}
 		}
-		// disturb the transfers from other goroutines
-		var wg sync.WaitGroup
 		var ops atomic.Int64
-		for g := 0; g < 4; g++ {
-			seed := r.Int63()
-			wg.Add(1)
-			go func() {
-				defer wg.Done()
-				rr := rand.New(rand.NewSource(seed))
-				for i := 0; i < 12; i++ {
-					if len(xs) == 0 {
-						return
-					}
-					x := xs[rr.Intn(len(xs))]
-					node := A
-					if rr.Intn(2) == 0 {
-						node = B
-					}
-					switch rr.Intn(6) {
-					case 0:
-						node.dt.PauseDataTransferChannel(ctx, x.chid)
-					case 1:
-						node.dt.ResumeDataTransferChannel(ctx, x.chid)
-					case 2:
-						if rr.Intn(3) == 0 {
-							node.dt.CloseDataTransferChannel(ctx, x.chid)
-						}
-					case 3:
-						node.dt.ChannelState(ctx, x.chid)
-						node.dt.InProgressChannels(ctx)
-					case 4:
-						if rr.Intn(4) == 0 {
-							mn.DisconnectPeers(h1.ID(), h2.ID())
-						}
-					default:
-						node.dt.RestartDataTransferChannel(ctx, x.chid)
-					}
-					ops.Add(1)
-					time.Sleep(time.Duration(rr.Intn(300)) * time.Millisecond)
-				}
-			}()
+		seeds := make([]int64, 4)
+		for i := range seeds {
+			seeds[i] = r.Int63()
 		}
-		wg.Wait()
-		if !stopEarly {
-			time.Sleep(10 * time.Minute)
-			// end whatever is still open so that the monitors shut down
-			for _, x := range xs {
-				for _, nd := range []*e2eNode{A, B} {
-					if v := nd.view(c, x.chid); v != nil && !isTerminal(v.Status) {
-						nd.dt.CloseDataTransferChannel(ctx, x.chid)
+		stopEarly := r.Intn(2) == 0
+		ok := c.HangCheck("C20", "e2e-stress", 90*time.Second, func() {
+			var wg sync.WaitGroup
+			for g := 0; g < 4; g++ {
+				wg.Add(1)
+				go func(seed int64) {
+					defer wg.Done()
+					rr := rand.New(rand.NewSource(seed))
+					for i := 0; i < 12 && len(xs) > 0; i++ {
+						x := xs[rr.Intn(len(xs))]
+						node := A
+						if rr.Intn(2) == 0 {
+							node = B
+						}
+						octx, ocancel := context.WithTimeout(ctx, 3*time.Second)
+						switch rr.Intn(6) {
+						case 0:
+							node.dt.PauseDataTransferChannel(octx, x.chid)
+						case 1:
+							node.dt.ResumeDataTransferChannel(octx, x.chid)
+						case 2:
+							if rr.Intn(3) == 0 {
+								node.dt.CloseDataTransferChannel(octx, x.chid)
+							}
+						case 3:
+							node.dt.ChannelState(octx, x.chid)
+							node.dt.InProgressChannels(octx)
+						case 4:
+							if rr.Intn(4) == 0 {
+								mn.DisconnectPeers(h1.ID(), h2.ID())
+							}
+						default:
+							node.dt.RestartDataTransferChannel(octx, x.chid)
+						}
+						ocancel()
+						ops.Add(1)
+						time.Sleep(time.Duration(rr.Intn(30)) * time.Millisecond)
 					}
+				}(seeds[g])
+			}
+			wg.Wait()
+			if !stopEarly {
+				time.Sleep(2 * time.Second)
+			}
+		})
+		done := 0
+		if ok {
+			for _, x := range xs {
+				if v := x.from.view(c, x.chid); v != nil && isTerminal(v.Status) {
+					done++
 				}
 			}
-			time.Sleep(5 * time.Minute)
-		}
-		stopped := make(chan struct{})
-		go func() {
-			A.dt.Stop(context.Background())
-			B.dt.Stop(context.Background())
-			close(stopped)
-		}()
-		time.Sleep(5 * time.Minute)
-		synctest.Wait()
-		select {
-		case <-stopped:
-		default:
-			c.Violation("C20", "stop-did-not-return", "Manager.Stop has not returned 5 virtual minutes after it was called with %d transfers", len(xs))
-		}
-		done := 0
-		for _, x := range xs {
-			if v := x.from.view(c, x.chid); v != nil && isTerminal(v.Status) {
-				done++
+			if c.HangCheck("C20", "e2e-stop", 30*time.Second, func() {
+				A.dt.Stop(context.Background())
+				B.dt.Stop(context.Background())
+			}) {
+				if left := vf.ParkedOnLocks(); len(left) > 0 {
+					c.Violation("C20", "goroutine-left-on-library-lock "+left[0], "after Manager.Stop returned, library goroutines are still parked on locks: %v", left)
+				}
 			}
 		}
 		c.Count("transfers", len(xs))
@@ -911,6 +896,5 @@ func TestC20E2E(t *testing.T) {
 		h1.Close()
 		h2.Close()
 		mn.Close()
-		time.Sleep(10 * time.Minute)
 	})
 }
